@@ -52,10 +52,9 @@ def run(tier, replay_file=None):
              '   /\\ (n = 4 => h.op \\in {"KeepAlive", "Results", "Metrics", "Start"}) /\\ (n = 6 => h.op \\in {"KeepAlive", "Results"}) /\\ (n = 7 => h.op = "Metrics")\n')
     hb, _ = gen.histories("Server", consts(False, OPS_MEM, insts='{"i1","i2","i3"}', maxnow=100000), 7, defs=FAM_B, extra_cfg={"action_constraints": ["MC_Sweep"]})
     R.cov["enumerated_life_histories"], R.cov["enumerated_sweep_histories"] = len(ha), len(hb)
-    if quick:
-        import random as _r
-        ha = _r.Random(common.seed() + 1).sample(ha, min(len(ha), 250))
-        hb = _r.Random(common.seed() + 2).sample(hb, min(len(hb), 250))
+    import random as _r
+    ha = _r.Random(common.seed() + 1).sample(ha, min(len(ha), 250 if quick else 1680))
+    hb = _r.Random(common.seed() + 2).sample(hb, min(len(hb), 250 if quick else 6000))
     plans += [("seconds", True, ha), ("minutes", True, ha[::3]), ("seconds", False, hb), ("hours", False, hb[::3])]
     expiries = 0
     ops = {}
